@@ -386,6 +386,28 @@ Definition chat_decode (t : chat_template) (s : str) : res str :=
   | None => RErr 23
   end.
 
+(** ** what serde_json WRITES for chat messages (the inverse direction, for [chat_roundtrip]) *)
+(** [serde_json::to_string] of a string followed by [k] *)
+Definition jstr_k (s k : str) : str := 34%N :: flat_map esc_char s ++ 34%N :: k.
+Definition jbool (b : bool) : str := if b then [116;114;117;101]%N else [102;97;108;115;101]%N.
+
+(** [serde_json::to_string(&ChatMessage)] followed by [rest]: {"text":..,"role":..,"partial":..} *)
+Definition print_msg_k (m : chat_msg) (rest : str) : str :=
+  123%N :: 34%N :: K_TEXT ++ 34%N :: 58%N ::
+    jstr_k (cm_text m) (44%N :: 34%N :: K_ROLE ++ 34%N :: 58%N ::
+      jstr_k (cm_role m) (44%N :: 34%N :: K_PARTIAL ++ 34%N :: 58%N :: jbool (cm_partial m) ++ 125%N :: rest)).
+
+
+(** [serde_json::to_string(&Vec<ChatMessage>)] *)
+Fixpoint print_tail (l : list chat_msg) (rest : str) : str :=
+  match l with
+  | [] => 93%N :: rest
+  | m :: r => 44%N :: print_msg_k m (print_tail r rest)
+  end.
+Definition print_chat (l : list chat_msg) : str :=
+  91%N :: match l with [] => [93%N] | m :: r => print_msg_k m (print_tail r []) end.
+
+
 (** * the misspellings file from its BYTES: [serde_json::from_reader::<HashMap<String, Vec<String>>>] — strict UTF-8, a json
     object whose values are arrays of strings (typed: anything else is an error, nothing is ignored), then only
     whitespace; a key given twice keeps its LAST list ([HashMap::insert]).  [None] = the [expect] of the constructor panics. *)
